@@ -209,3 +209,5 @@ func genStatement(g *Gen) string {
 	}
 	return q
 }
+
+func init() { groups["ERRPOS"] = runERRPOS }
